@@ -290,6 +290,11 @@ func (w *worker) evalPath(c caseDef, path string) (o obs) {
 		}
 	}
 	req := relicx.SignReq{SigType: c.T.SigType, Key: c.Key.Name, Hash: c.Hash, Flags: w.baseFlags(c.T, c.Flags), In: in, Out: out}
+	if path == "server" && c.ShapeIdx%2 == 1 {
+		// every other shape reaches the server on the client's second attempt
+		// (the first upload was consumed and answered with a temporary failure)
+		req.PriorAttempts = 1
+	}
 	err = w.sign(path, req)
 	if err != nil && !c.Shape.Strict && req.SigType == "" && err.Error() == "unknown filetype" {
 		// unusual layouts may defeat content sniffing; name the type like a user would
